@@ -29,16 +29,22 @@ fn('dsplib::FftFilter::process', F, sig='(const dsplib::arr_cmplx &)', key='FftF
             ('length', 'result.len == tdiv(x.len + old._nx, _n) * _n'),
             ('fill', '_nx == tmod(old._nx + x.len, _n)'),
             ('pending', 'forall(lambda j: Implies(And(0 <= j, j < _nx), same(_x[j], ' + P.format(t='(result.len + j)') + ')))'),
-            ('coefficients', 'And(_h.len == old._h.len, _m == old._m, _n == old._n)')],
+            ('coefficients', 'And(_h.len == old._h.len, _m == old._m, _n == old._n)'),
+            # a whole block of zeros on an aligned filter leaves no overlap tail behind (used by PreambleDetector::reset)
+            ('flushed', 'Implies(And(old._nx == 0, x.len >= _n, forall(lambda k: Implies(And(0 <= k, k < x.len), And(x[k].re == 0, x[k].im == 0)))), forall(lambda t: Implies(And(0 <= t, t < _olap.len), And(_olap[t].re == 0, _olap[t].im == 0))))')],
    prop_of={'pending': ['C06', 'C07'], 'length': ['C07', 'C06'], 'fill': ['C06', 'C07']},
+   asserts_on=[('call:fft', [('zero_block', 'Implies(And(old._nx == 0, forall(lambda k: Implies(And(0 <= k, k < x.len), And(x[k].re == 0, x[k].im == 0)))), forall(lambda t: Implies(And(0 <= t, t < _x.len), And(_x[t].re == 0, _x[t].im == 0))))')])],
    loops={1: {'facts': ['DIVMOD_UNIQUE(old._nx + val_idx, _n, tdiv(pr.off, _n), _nx)', 'DIV_STEP(old._nx + val_idx, _n)',
                         'DIV_MONO(old._nx + val_idx + 1, old._nx + x.len, _n)',
                         'MULMONO(tdiv(old._nx + x.len, _n), tdiv(pr.off, _n) + 1, _n)', 'DIVMUL(tdiv(pr.off, _n) + 1, _n)'],
               'inv': [('shape', FF_OK), ('coefficients', 'And(_h.len == old._h.len, _m == old._m, _n == old._n)'),
                       ('out', 'And(r.len == tdiv(x.len + old._nx, _n) * _n, pr.off >= 0, pr.off == tdiv(pr.off, _n) * _n, old._nx + val_idx == pr.off + _nx)'),
-                      ('pending', 'forall(lambda j: Implies(And(0 <= j, j < _nx), same(_x[j], ' + P.format(t='(pr.off + j)') + ')))')]},
+                      ('pending', 'forall(lambda j: Implies(And(0 <= j, j < _nx), same(_x[j], ' + P.format(t='(pr.off + j)') + ')))'),
+                      ('flush', 'Implies(And(old._nx == 0, forall(lambda k: Implies(And(0 <= k, k < x.len), And(x[k].re == 0, x[k].im == 0))), pr.off >= _n), forall(lambda t: Implies(And(0 <= t, t < _olap.len), And(_olap[t].re == 0, _olap[t].im == 0))))')]},
           2: {'inv': [('len', 'And(r.len == tdiv(x.len + old._nx, _n) * _n, pr.off + _n <= r.len, pr.off >= 0)')]},
-          3: {'inv': [('len', 'And(r.len == tdiv(x.len + old._nx, _n) * _n, pr.off + _n <= r.len, pr.off >= 0, _olap.len == _m - 1)')]}},
+          3: {'inv': [('len', 'And(r.len == tdiv(x.len + old._nx, _n) * _n, pr.off + _n <= r.len, pr.off >= 0, _olap.len == _m - 1)'),
+                      ('flush', 'Implies(forall(lambda k: Implies(And(0 <= k, k < ry.len), And(ry[k].re == 0, ry[k].im == 0))), '
+                                'forall(lambda t: Implies(And(0 <= t, t < i), And(_olap[t].re == 0, _olap[t].im == 0))))')]}},
    post_facts=['DIVMOD_UNIQUE(old._nx + x.len, _n, tdiv(pr.off, _n), _nx)'])
 
 fn('dsplib::FftFilter::FftFilter', F, sig='(const dsplib::arr_cmplx &)', key='FftFilter::FftFilter(cmplx)', serves=['C06', 'C07', 'C05'],
@@ -64,4 +70,5 @@ fn('dsplib::FftFilter::process', F, sig='(const dsplib::arr_real &)', key='FftFi
             ('length', 'result.len == tdiv(x.len + old._nx, _n) * _n'),
             ('fill', '_nx == tmod(old._nx + x.len, _n)'),
             ('pending', 'forall(lambda j: Implies(And(0 <= j, j < _nx), And(_x[j].re == If(result.len + j < old._nx, old._x[result.len + j].re, x[result.len + j - old._nx]), '
-                        '_x[j].im == If(result.len + j < old._nx, old._x[result.len + j].im, 0))))')])
+                        '_x[j].im == If(result.len + j < old._nx, old._x[result.len + j].im, 0))))'),
+            ('flushed', 'Implies(And(old._nx == 0, x.len >= _n, forall(lambda k: Implies(And(0 <= k, k < x.len), x[k] == 0))), forall(lambda t: Implies(And(0 <= t, t < _olap.len), And(_olap[t].re == 0, _olap[t].im == 0))))')])
